@@ -668,5 +668,8 @@ PROPS["C20"]["rules"] = PROPS["C20"]["rules"] + [rules_bounds.rule_unbounded_nam
 PROPS["C20"]["explanation"] += " (NAMEBUF) inside the library a Vgroup's name or class is copied into a fixed array only after its length was queried."
 PROPS["C08"]["rules"] = PROPS["C08"]["rules"] + [rules_bounds.rule_unbounded_name_reads]
 
+PROPS["C03"]["rules"] = PROPS["C03"]["rules"] + [rules_sd.rule_api_name_set, rules_sd.rule_fill_length_in_bytes]
+PROPS["C03"]["explanation"] += " (APINAME) every public SD routine that can reach NCcoordck sets cdf_routine_name first. (FILLBYTES) NC_arrayfill is handed a byte length."
+
 NOT_APPLICABLE = {}
 
